@@ -4,6 +4,8 @@ namespace MaddyVerif.Expect.FuncSkelC04
 /-- (declaration, fingerprint of its normalised text): comments, layout, local names and log/trace statements do not count -/
 def funcs : List (String × String) := [
   ("framework/address/norm.go:ForLookup", "b44bc88d5db8964d"),
+  ("framework/dns/idna.go:SelectIDNA", "0e2c178b1a0de365"),
+  ("framework/dns/idna.go:ToUnicode", "7a4171a12e750641"),
   ("framework/dns/norm.go:ForLookup", "db7766b1858341fc"),
   ("internal/modify/group.go:Group.Init", "8a7190be7d77877e"),
   ("internal/modify/group.go:Group.InstanceName", "710ae792e8e9ac1d"),
@@ -28,6 +30,7 @@ def funcs : List (String × String) := [
   ("internal/msgpipeline/config.go:validMatchRule", "691ad6f172509cc5"),
   ("internal/msgpipeline/msgpipeline.go:MsgPipeline.Start", "2567ac34fcd9d9e9"),
   ("internal/msgpipeline/msgpipeline.go:msgpipelineDelivery.AddRcpt", "4a921086f6367c2d"),
+  ("internal/msgpipeline/msgpipeline.go:msgpipelineDelivery.getDelivery", "dc504feb895154cd"),
   ("internal/msgpipeline/msgpipeline.go:msgpipelineDelivery.rcptBlockForAddr", "85340c694dae1c5e"),
   ("internal/msgpipeline/msgpipeline.go:msgpipelineDelivery.srcBlockForAddr", "ac85a9939a6cdf22")
 ]
